@@ -4,6 +4,11 @@ import json, os, shutil, subprocess, sys
 VERIF = os.path.dirname(os.path.dirname(os.path.abspath(__file__)))
 pid, out = sys.argv[1], sys.argv[2]
 extra = sys.argv[3:]
+tag = ""
+if "--tag" in extra:
+    i = extra.index("--tag")
+    tag = extra[i + 1]
+    del extra[i:i + 2]
 for m in sorted(os.listdir(out)):
     d = os.path.join(out, m)
     if not os.path.isdir(d) or not os.path.exists(os.path.join(d, "patch.diff")):
@@ -13,7 +18,7 @@ for m in sorted(os.listdir(out)):
         res = json.loads(v.stdout.strip().splitlines()[-1])
     except Exception:
         res = {"confirmed": False, "raw": v.stdout[-300:] + v.stderr[-300:]}
-    sid = "%s-%s" % (pid, m)
+    sid = "%s-%s%s" % (pid, tag, m)
     print(sid, "confirmed" if res.get("confirmed") else "NOT CONFIRMED %r" % res)
     if not res.get("confirmed"):
         continue
